@@ -73,6 +73,15 @@ def search(ctx):
         for rep in range(ctx.n(1, 3)):
             kinds = rng.choice([('Uiso',), ('Uani',), ('Uiso', 'Uani', None)])
             atoms = SF.random_atoms(rng, cell, rng.randint(1, 4), kinds=kinds)
+            extreme = rng.random() < 0.25
+            if extreme:
+                # very large displacement along one axis only (h.beta.h of several tens for one image of the atom, a few tenths for another): every image still counts
+                kinds = ('Uani',)
+                atoms = SF.random_atoms(rng, cell, rng.randint(1, 2), kinds=kinds)
+                for a in atoms:
+                    big = [rng.uniform(0.35, 0.8), 0.004, 0.004]
+                    rng.shuffle(big)
+                    a.adp = big + [0.0, 0.0, 0.0]
             for a in atoms:
                 a.symmulti = s.nsymop         # general positions
             tot = sum(a.occ * SF.formfac(a.atomtype, 0.0) for a in atoms) * s.nsymop
@@ -80,6 +89,8 @@ def search(ctx):
             deep = bool(ctx.broken)
             for q in range(ctx.n(10, 30) * (3 if deep else 1)):
                 h = draw_hkl()
+                if extreme and q % 2 == 0:
+                    h = np.array(rng.choice([(8, 0, 1), (0, 8, 1), (1, 0, 8), (8, 1, 0), (1, 8, 0), (0, 1, 8), (7, 7, 1), (8, -8, 1)])) * rng.choice([1, -1])
                 for _try in range(20):          # prefer reflections that are not extinct: an extinct one only tests F = 0
                     if any(h) and not HR.extinct(h, R, t12):
                         break
